@@ -10,6 +10,11 @@ import (
 func init() {
 	specTable["(metacontroller/pkg/hooks.Hook).Call"] = func(e *Exec, cc *callCtx) Val {
 		errV := e.fresh(cc.f.prefix+"hook_err", "Any")
+		// the only implementation (hookExecutorImpl.Call) calls through its webhookExecutor, which is nil
+		// exactly when IsEnabled() is false (both facts are contracts checked in pkg/hooks)
+		e.declFun("ext_hooks.Hook.IsEnabled", []string{"Any"}, "Bool")
+		e.safety("nilptr", And(Not(Eq(cc.args[0].Term, "nil_any")), app("ext_hooks.Hook.IsEnabled", cc.args[0].Term)), cc.reach,
+			"Hook.Call on a nil or disabled hook (hookExecutorImpl.Call dereferences its nil webhookExecutor)")
 		cn := "REQ_HookCall"
 		old := e.comp(cc.st, cn, "Int")
 		e.setComp(cc.st, cn, "Int", app("+", old, "1"))
